@@ -41,10 +41,6 @@ SKIPPED = ('skipped',)
 HDR = 'import subprocess, json, shlex\nfrom boltons.strutils import *\n'
 
 
-def strings_upto(n, alpha=ALPHA):
-    return [''.join(p) for k in range(n + 1) for p in itertools.product(alpha, repeat=k)]
-
-
 def lists_total(nargs, total, by_len):
     """all lists of exactly nargs strings over ALPHA with summed length <= total"""
     for lens in itertools.product(range(total + 1), repeat=nargs):
@@ -417,11 +413,11 @@ def run():
                     quick='args: all lists of <=1 string of length <=4, 2 strings of total length <=4, 3 strings of total '
                           'length <=3 over {a,space,tab,\',",\\,$,*,newline,e-acute}; every code point 1..0x2FF and every '
                           '257th code point alone and in 2 contexts through the shells; inert set: ALL code points but NUL '
-                          'and surrogates, alone; ints: all lists <=5 over 0..7 + multi-digit subsets; complement: all '
+                          'and surrogates, alone and as a%sa; ints: all lists <=5 over 0..7 + multi-digit subsets; complement: all '
                           'subsets of 0..7 x start 0..9 x end None,0..9; gzip: all single bytes, strings <=3 over 6 bytes, '
                           '3 large, levels 1-9',
                     thorough='args: 1 string <=5 (+ <=6 if time), 2 strings total <=5, 3 strings total <=4; inert set also '
-                             'in contexts a%sa and \'%s; ints: all lists <=6 over 0..7; seeded random long argument lists'))
+                             'in context \'%s; ints: all lists <=6 over 0..7; seeded random long argument lists'))
     rnd = random.Random(H.seed)
 
     # ---- reference model validation ---------------------------------------------------------------
@@ -476,7 +472,7 @@ def run():
 
         # ---- seeded random longer lists (thorough) ----------------------------------------------------
         if H.thorough:
-            pool = ALPHA + list(';|&<>()`~#!?[]{}=%-') + ['\r', '\x01', ' ', '\U0001F600', 'b', '0']
+            pool = ALPHA + list(';|&<>()`~#!?[]{}=%-') + ['\r', '\x01', '\u2028', '\U0001F600', 'b', '0']
             cases = [[''.join(rnd.choice(pool) for _ in range(rnd.randint(0, 12))) for _ in range(rnd.randint(0, 6))]
                      for _ in range(60000)]
             check_shell_quoting(H, sh, cases, 'args_random')
@@ -491,7 +487,7 @@ def run():
         sh.close()
 
     # ---- finite exhaustive obligation over all code points ---------------------------------------------
-    check_inert_exhaustive(H, ['', 'a%sa', "'%s"] if H.thorough else [''])
+    check_inert_exhaustive(H, ['', 'a%sa', "'%s"] if H.thorough else ['', 'a%sa'])
 
     # ---- integer lists -------------------------------------------------------------------------------
     for k in range(0, (6 if H.thorough else 5) + 1):
